@@ -44,13 +44,25 @@ def run(pid, cfg, failed, findings, repo, scratch):
         for fn in fns:
             r = replay_arith.replay(repo, [fn], scratch, log, binary=binary) if binary else None
             fails_by_fn[fn] = r
+    elif fam in ("arith_float", "arith_cmp"):
+        import replay_arith
+        binary = replay_arith.build_binary(repo, log)
+        fnc = replay_arith.replay_float if fam == "arith_float" else replay_arith.replay_cmp
+        for fn in sorted(set(_fn_of(ob) for ob in by_ob) | set(ob.split("::")[-1] for ob in by_ob)):
+            fails_by_fn[fn] = fnc(repo, [fn], scratch, log, binary=binary) if binary else None
+    elif fam in ("heap",):
+        import replay_rust
+        fails_by_fn = replay_rust.replay_all(repo, by_ob, scratch, log, fam)
     elif fam:
         mod = __import__("replay_" + fam)
         fails_by_fn = mod.replay_all(repo, by_ob, scratch, log)
     known, violations = [], []
     for ob, fl in sorted(by_ob.items()):
         fn = _fn_of(ob)
-        inputs = fails_by_fn.get(fn) if fam == "arith" else fails_by_fn.get(ob)
+        if fam in ("arith", "arith_float", "arith_cmp"):
+            inputs = fails_by_fn.get(fn) or fails_by_fn.get(ob.split("::")[-1])
+        else:
+            inputs = fails_by_fn.get(ob)
         matched = None
         for kf in findings:
             if kf.get("obligation") != ob:
@@ -90,13 +102,15 @@ def rerun(pid, path, repo):
     if not rec.get("failing_inputs"):
         print("no concrete failing input was recorded (no-failing-input-found)")
         return 1
-    if fam == "arith":
+    if fam in ("arith", "arith_float", "arith_cmp"):
         import replay_arith
+        if fam == "arith_cmp":
+            replay_arith.PL_HEAD = replay_arith.CMP_HEAD
         log = []
         binary = replay_arith.build_binary(repo, log)
         if not binary:
             print("\n".join(log)); return 2
-        goals = [i["goal"][len("X is "):] for i in rec["failing_inputs"]]
+        goals = [i["goal"][len("X is "):] if i["goal"].startswith("X is ") else i["goal"] for i in rec["failing_inputs"]]
         scratch = os.path.join(ROOT, ".scratch", "replay")
         os.makedirs(scratch, exist_ok=True)
         out = replay_arith.run_goals(binary, goals, scratch, log)
@@ -109,5 +123,13 @@ def rerun(pid, path, repo):
             print("%s -> %s (expected %s)%s" % (i["goal"], got, exp, "" if ok else "  STILL FAILS"))
             bad += 0 if ok else 1
         return 1 if bad else 0
+    if fam in ("heap",):
+        import replay_rust
+        log = []
+        fails = replay_rust.run_family(repo, fam, log)
+        print("\n".join(log))
+        for f in fails or []:
+            print("STILL FAILS:", f)
+        return 1 if fails else 0
     mod = __import__("replay_" + fam)
     return mod.rerun(rec, repo)
